@@ -24,3 +24,13 @@ package core
 
 //@ func ProxyStats.ReqCmdIncr
 //@   flags trusted pure
+
+//@ func deleteFromTimeoutQueue
+//@   flags trusted pure
+
+//@ func pushToTimeoutQueue
+//@   flags trusted
+//@   modifies msg.Timeout
+
+//@ func Frag.slowLogCheck
+//@   flags trusted pure
